@@ -14,8 +14,14 @@
 (* Design-level theorem (MC_LoGraph): for samples derived from an ancestor *)
 (* under the C17 precondition the entry nodes are exactly, on each strand, *)
 (* the (k-1)-mer immediately before each variable site.                    *)
-(* Traversal, compaction, de-duplication and positioning are NOT modelled; *)
-(* C17/C18 are decided relationally on recorded runs (Lo.tla, Trace_Lo).   *)
+(* The third stage, path enumeration (src/skalo/read_graph.rs               *)
+(* build_variant_groups), is specified below as `FinalGroups` / `FinalIndels`:*)
+(* the saved paths of the depth-first walk from every entry node, grouped  *)
+(* by exit node, filtered to the most common length and split into indel   *)
+(* and SNP groups.  Compaction is an optimisation of the walk and is not   *)
+(* represented; de-duplication of SNPs across groups and positioning are   *)
+(* not modelled: C17/C18 are decided relationally on recorded runs         *)
+(* (Lo.tla, Trace_Lo).                                                     *)
 (***************************************************************************)
 EXTENDS Lo
 
@@ -49,4 +55,119 @@ LeftMer(ancestor, p, n) == [j \in 1..n |-> Enc(ancestor[p - n + j])]
 RightMer(ancestor, p, n) == [j \in 1..n |-> Enc(ancestor[p + 1 + j])]
 ExpectedEntries(ancestor, sites, alleles, k) ==
    UNION {{LeftMer(ancestor, sites[i], k - 1), RevComp(RightMer(ancestor, sites[i], k - 1))} : i \in VariableSites(alleles)}
+
+\* ---- the graph as the code holds it: a MULTIGRAPH ------------------------------------
+\* build_graph pushes, for every row and every base d its middle codes stand for, one edge for the full k-mer
+\* and one for its reverse complement.  For a row whose arms are their own reverse complement (its code
+\* then stands for d and the complement of d) both edges are pushed twice.  An edge instance is
+\* <<arms, d, strand>>; edges are records [id, src, dst].
+Instances(T) ==
+   UNION {{<<r[1], d, st>> : d \in UNION {IupacSet(r[2][i]) : i \in {j \in 1..Len(r[2]) : r[2][j] # Gap}}, st \in {0, 1}} : r \in T.rows}
+FullOfInst(i, k) == IF i[3] = 0 THEN FullOf(i[1], i[2], k) ELSE RevComp(FullOf(i[1], i[2], k))
+EdgeOfInst(i, k) == [id |-> i, src |-> Prefix(FullOfInst(i, k)), dst |-> Suffix(FullOfInst(i, k))]
+Graph0(T) == {EdgeOfInst(i, T.k) : i \in Instances(T)}
+Out(G, u) == {e \in G : e.src = u}
+
+\* ---- compaction (compaction.rs compact_graph) ------------------------------------------
+\* From every successor s of an extremity node: follow the graph while the current node has exactly one
+\* outgoing edge to a node not yet on this chain, stopping on an extremity node.  Chains of at least two nodes
+\* are replaced by a direct edge from s to their last node; the nodes in between are remembered so that
+\* paths still spell them, but the walk below never marks them as visited.
+RECURSIVE ChainFrom(_, _, _, _, _)
+ChainFrom(G, Ext, cur, vis, vv) ==
+   LET out == Out(G, cur) IN
+   IF Cardinality(out) # 1 THEN vv
+   ELSE LET n == (CHOOSE e \in out : TRUE).dst IN
+        IF n \in vis THEN vv
+        ELSE IF n \in Ext THEN Append(vv, n)
+        ELSE ChainFrom(G, Ext, n, vis \cup {n}, Append(vv, n))
+ChainStarts(G, Ext) == {e.dst : e \in {f \in G : f.src \in Ext}}
+Chains(G, Ext) == LET cs == ChainStarts(G, Ext)
+                      ch == [s \in cs |-> ChainFrom(G, Ext, s, {}, <<>>)]
+                  IN [s \in {x \in cs : Len(ch[x]) > 1} |-> ch[s]]
+Compacted(G, C) ==
+   LET gone(e) == \E s \in DOMAIN C :
+                     \/ (e.src = s /\ e.dst = C[s][1])
+                     \/ \E i \in 1..(Len(C[s]) - 2) : e.src = C[s][i] /\ e.dst = C[s][i + 1]
+   IN {e \in G : ~gone(e)} \cup {[id |-> <<"chain", s>>, src |-> s, dst |-> C[s][Len(C[s])]] : s \in DOMAIN C}
+\* the nodes a path spells after stepping on n: the chain's nodes but the last
+Inner(C, n) == IF n \in DOMAIN C THEN SubSeq(C[n], 1, Len(C[n]) - 1) ELSE <<>>
+
+\* ---- path enumeration (read_graph.rs build_variant_groups) -------------------------
+\* The walk from a state [cur, vis, vv, ids, depth].  A node is stepped on if it is not marked visited;
+\* stepping on an exit node SAVES the path (with the chain nodes that follow it) and the walk goes on; where
+\* several edges lead to unvisited nodes (a double edge counts twice) the walk forks with depth + 1, and a fork
+\* deeper than maxDepth is abandoned (after its first step has been saved if that is an exit node).
+RECURSIVE Cont(_, _, _, _, _)
+Step(C, X, st, e) == [cur |-> e.dst, vis |-> st.vis \cup {e.dst}, vv |-> Append(st.vv, e.dst) \o Inner(C, e.dst),
+                      ids |-> Append(st.ids, e.id), depth |-> st.depth]
+SavedOf(X, st2, e) == IF e.dst \in X THEN {[vv |-> st2.vv, ids |-> st2.ids, x |-> e.dst]} ELSE {}
+Cont(G, C, X, maxDepth, st) ==
+   LET nxt == {e \in Out(G, st.cur) : e.dst \notin st.vis} IN
+   IF nxt = {} THEN {}
+   ELSE IF Cardinality(nxt) = 1
+        THEN LET e == CHOOSE x \in nxt : TRUE
+                 st2 == Step(C, X, st, e)
+             IN SavedOf(X, st2, e) \cup Cont(G, C, X, maxDepth, st2)
+        ELSE UNION {LET st2 == Step(C, X, st, e) IN
+                    SavedOf(X, st2, e) \cup (IF st.depth + 1 > maxDepth THEN {}
+                                              ELSE Cont(G, C, X, maxDepth, [st2 EXCEPT !.depth = st.depth + 1])) : e \in nxt}
+
+SavedPaths(G, C, X, maxDepth, e) ==
+   UNION {Cont(G, C, X, maxDepth, [cur |-> f.dst, vis |-> {e, f.dst}, vv |-> <<e, f.dst>> \o Inner(C, f.dst),
+                                   ids |-> <<f.id>>, depth |-> 0]) : f \in Out(G, e)}
+
+\* the base sequence a path spells: the entry (k-1)-mer, then the last digit of every further node
+SeqOfPath(p) == p[1] \o [i \in 1..(Len(p) - 1) |-> p[i + 1][Len(p[i + 1])]]
+
+\* most common path length; ties go to the shorter one (fix F13: independent of map iteration order)
+MostCommonLength(ps) ==
+   LET lens == {Len(p.vv) : p \in ps}
+       cnt(l) == Cardinality({p \in ps : Len(p.vv) = l})
+   IN CHOOSE l \in lens : \A m \in lens : cnt(l) > cnt(m) \/ (cnt(l) = cnt(m) /\ l <= m)
+
+\* groups built from entry node e: <<entry, exit, set of <<sequence, edge ids>> >> (the ids keep apart the copies
+\* of a path that runs through a double edge)
+BuiltFrom(G, C, X, maxDepth, e) ==
+   LET saved == SavedPaths(G, C, X, maxDepth, e)
+       exits == {p.x : p \in saved}
+       at(x) == {p \in saved : p.x = x}
+       worth == \E x \in exits : Cardinality(at(x)) > 1
+       kept(x) == IF Cardinality(at(x)) = 2 THEN at(x)
+                  ELSE LET l == MostCommonLength(at(x)) IN {p \in at(x) : Len(p.vv) = l}
+   IN IF ~worth THEN {}
+      ELSE {<<e, x, {<<SeqOfPath(p.vv), p.ids>> : p \in kept(x)}>> :
+               x \in {y \in exits : /\ Cardinality({p.vv[2] : p \in at(y)}) > 1
+                                    /\ Cardinality({p.vv[Len(p.vv) - 1] : p \in at(y)}) > 1}}
+
+BuiltGroups(T, maxDepth) ==
+   LET E == EntryNodes(T)
+       X == {RevComp(u) : u \in E}
+       G0 == Graph0(T)
+       C == Chains(G0, E \cup X)
+       G == Compacted(G0, C)
+   IN UNION {BuiltFrom(G, C, X, maxDepth, e) : e \in E}
+
+\* an indel group: exactly two paths of different lengths, one of them at most 2(k-1) long;
+\* every other group of at least two paths is a SNP group
+TwoLengths(g) == Cardinality(g[3]) = 2 /\ \E a \in g[3], b \in g[3] : Len(a[1]) # Len(b[1])
+FinalIndelsOf(B, k) == {g \in B : TwoLengths(g) /\ \E a \in g[3] : Len(a[1]) <= 2 * (k - 1)}
+FinalGroupsOf(B) == {g \in B : Cardinality(g[3]) >= 2 /\ ~TwoLengths(g)}
+FinalIndels(T, maxDepth) == FinalIndelsOf(BuiltGroups(T, maxDepth), T.k)
+FinalGroups(T, maxDepth) == FinalGroupsOf(BuiltGroups(T, maxDepth))
+\* without the copies: <<entry, exit, set of sequences>>
+Plain(G) == {<<g[1], g[2], {q[1] : q \in g[3]}>> : g \in G}
+
+\* strand symmetry: every group has its mirror image, exit and entry swapped and reverse-complemented
+Mirror(g) == <<RevComp(g[2]), RevComp(g[1]), {RevComp(q) : q \in g[3]}>>
+StrandSymmetric(G) == \A g \in Plain(G) : Mirror(g) \in Plain(G)
+
+\* expectation for derived samples under the C17 precondition: a group from the (k-1)-mer before a variable
+\* site to the (k-1)-mer after it (and its mirror) spelling left flank + allele + right flank for every
+\* allele present.  (Groups spanning several sites exist as well when the walk reaches the next site.)
+SiteGroup(ancestor, p, col, k) ==
+   <<LeftMer(ancestor, p, k - 1), RightMer(ancestor, p, k - 1),
+     {LeftMer(ancestor, p, k - 1) \o <<Enc(col[s])>> \o RightMer(ancestor, p, k - 1) : s \in 1..Len(col)}>>
+ExpectedSiteGroups(ancestor, sites, alleles, k) ==
+   UNION {{SiteGroup(ancestor, sites[i], alleles[i], k), Mirror(SiteGroup(ancestor, sites[i], alleles[i], k))} : i \in VariableSites(alleles)}
 =============================================================================
